@@ -172,6 +172,23 @@ func inheritedAudit(c *Ctx, o *Obligation, t *Tables, produced map[string]bool, 
 			return e, true
 		}
 	}
+	// two (or more) audited siblings merged into ONE helper (`select` and `reject` both became
+	// `filterSeq(env, args, keepWhen)`): every caller of the helper is a function that had this
+	// construct audited; all those entries are consumed together
+	if len(keys) > 1 {
+		funcs := map[string]bool{}
+		for _, k := range keys {
+			funcs[t.Audited[k].Func] = true
+		}
+		if via, ok := c.privateHelperOf(fn, func(name string) bool { return funcs[name] }, 0); ok {
+			e := t.Audited[keys[0]]
+			for _, k := range keys {
+				consumed[k] = true
+			}
+			e.Reason = "moved into a helper shared by " + via + ", each of which had it audited: " + e.Reason
+			return e, true
+		}
+	}
 	// the audited construct respelled inside the SAME function: the value moved from a parameter into a
 	// local (`list, quoteLevel := stripQuotes(v)` … `list.Cells[1]` where `v.Cells[1]` was audited) or
 	// the ordinal shifted; each audited entry is consumed once and only while F no longer produces it,
